@@ -405,7 +405,7 @@ st_ape = _pair_with(st.fixed_dictionaries({
     "relation": st.sampled_from([r for r in rm.RELATIONS if r != "point_distance_error_ratio"]), "align": st.booleans(),
     "correct_scale": st.booleans(), "align_origin": st.booleans(), "change_unit": st.booleans(), "cu_i": st.integers(0, 3)}))
 st_rpe = _pair_with(st.fixed_dictionaries({
-    "relation": st.sampled_from(rm.RELATIONS), "align": st.booleans(), "all_pairs": st.booleans(), "delta": st.integers(0, 12),
+    "relation": st.sampled_from(list(rm.RELATIONS) + ["point_distance_error_ratio"] * 3), "align": st.booleans(), "all_pairs": st.booleans(), "delta": st.integers(0, 12),
     "change_unit": st.booleans(), "cu_i": st.integers(0, 3), "support_loop": st.booleans(), "still": st.booleans(),
     "dunit": st.sampled_from(["f", "f", "m", "r"])}))
 
@@ -417,5 +417,5 @@ SUBS = [
         "vals": st.lists(st.one_of(st.just(0.0), gen.fl(1e-6, 1.0)), min_size=1, max_size=30), "mag": gen.log_uniform(-6, 4), "const": st.booleans(),
         "cls": st.sampled_from(["ape", "rpe"]), "read_first": st.booleans()}), 300, 10000, nontrivial=lambda c: c["read_first"]),
     Sub("ape_result", sub_ape_result, st_ape, 800, 30000, nontrivial=lambda c: c["ref"]["n"] >= 2),
-    Sub("rpe_result", sub_rpe_result, st_rpe, 800, 30000, nontrivial=lambda c: c["ref"]["n"] >= 3),
+    Sub("rpe_result", sub_rpe_result, st_rpe, 1400, 40000, nontrivial=lambda c: c["ref"]["n"] >= 3, shards_quick=8),
 ]
